@@ -13,10 +13,12 @@ import (
 	"os/exec"
 	"path/filepath"
 	"regexp"
+	"runtime"
 	"sort"
 	"strconv"
 	"strings"
 	"sync"
+	"syscall"
 	"time"
 
 	"verif/mc/work"
@@ -387,11 +389,25 @@ func (e *Env) runOnce(bin string, job Job, prop string, shard int, from int64, s
 	tb := &tailBuf{}
 	cmd.Stderr = tb
 	cmd.Stdout = tb
-	if err := cmd.Start(); err != nil {
+	// a worker must not outlive its coordinator (a killed check would leave 16 busy orphans)
+	cmd.SysProcAttr = &syscall.SysProcAttr{Pdeathsig: syscall.SIGKILL}
+	// the parent-death signal is tied to the OS thread that forks: that thread is locked to a
+	// goroutine which stays alive (blocked in Wait) for as long as the worker runs
+	started := make(chan error, 1)
+	done := make(chan error, 1)
+	go func() {
+		runtime.LockOSThread()
+		defer runtime.UnlockOSThread()
+		if err := cmd.Start(); err != nil {
+			started <- err
+			return
+		}
+		started <- nil
+		done <- cmd.Wait()
+	}()
+	if err := <-started; err != nil {
 		return nil, true, "start", err.Error(), 0, "", false
 	}
-	done := make(chan error, 1)
-	go func() { done <- cmd.Wait() }()
 	maxRSS := job.MaxRSS
 	if maxRSS == 0 {
 		maxRSS = 6144
@@ -822,7 +838,9 @@ func Run(e *Env, spec *Spec) int {
 // crashClassifier lets a property turn (kind, signature, case description) into its own class name.
 var crashClassifier = map[string]func(kind, sig, desc string) string{}
 
-func SetCrashClassifier(harness string, f func(kind, sig, desc string) string) { crashClassifier[harness] = f }
+func SetCrashClassifier(harness string, f func(kind, sig, desc string) string) {
+	crashClassifier[harness] = f
+}
 
 func firstLines(s string, n int) string {
 	l := strings.Split(s, "\n")
